@@ -380,6 +380,7 @@ void Exec::op_rbasis(Client &c) {
 	std::vector<std::string> ps; for (auto &kv : files) if (kv.second.kind == "basis") ps.push_back(kv.first);
 	std::string path = ps.empty() ? io_path(op, ".bas") : ps[modn(op->i("pick"), (long)ps.size())];
 	if (op->i("pick", 0) == -2 && !last_fbasis_path.empty()) path = last_fbasis_path;
+	if (op->has("path")) path = io_path(op, ".bas");
 	if (op->i("missing", 0)) path = "/sim/nosuchfile.bas";
 	arm_file_faults(path);
 	bool load = op->s("how", "read") == "load"; bool exists = world.files.count(path) != 0;
@@ -421,7 +422,10 @@ void Exec::op_rbasis(Client &c) {
 				// "loading it reproduces the same basic solution": when the basis just loaded from the file is an optimal one, the next solve
 				// has nothing to do but to answer with exactly its basic solution (another optimal vertex means the loaded basis was not used)
 				if (load && a.counts_ok && !a.singular && a.primal_feasible && a.dual_feasible && !o->m.cols.empty() && !o->m.rows.empty()) {
-					int st = 0; int n = (int)o->m.cols.size(); world.cur_model = &o->m; int srv = modn(step, 2) ? mpq_QSopt_primal(o->p, &st) : mpq_QSopt_dual(o->p, &st); world.cur_model = 0; after_lib_call("rbasis:solve");
+					int st = 0; int n = (int)o->m.cols.size(); world.cur_model = &o->m; int it0 = 0, it1 = 0; mpq_QSget_itcnt(o->p, 0, 0, 0, 0, &it0);
+					int srv = modn(step, 2) ? mpq_QSopt_primal(o->p, &st) : mpq_QSopt_dual(o->p, &st); world.cur_model = 0; mpq_QSget_itcnt(o->p, 0, 0, 0, 0, &it1); after_lib_call("rbasis:solve");
+					// a solve that starts from an optimal basis has nothing to do: a pivot means it started somewhere else (e.g. from the basis the object had factorized before the load)
+					if (!srv && st == QS_LP_OPTIMAL && it1 != it0) violate("C14", "loaded-basis-not-used:pivots", strf("an optimal basis was read and loaded from its file, but the solve that follows made %d pivot(s)", it1 - it0)); else if (!srv && st == QS_LP_OPTIMAL) probe("c14.loaded_basis_no_pivot");
 					QArr xa(n); if (!srv && st == QS_LP_OPTIMAL && !mpq_QSget_x_array(o->p, xa.p())) { std::vector<Q> xs(n); for (int j = 0; j < n; j++) xs[j] = lib_to_q(xa.at(j));
 						if (xs != a.x) violate("C14", "loaded-basis-not-used", "an optimal basis was read and loaded from its file, but the solve that follows answers with another vertex"); else probe("c14.loaded_basis_reproduced"); }
 					else if (!srv && st != QS_LP_OPTIMAL) violate("C14", "loaded-basis-not-used:status", "an optimal basis was read and loaded from its file, but the solve that follows ends " + status_name(st));
